@@ -189,3 +189,72 @@ Example C14_query_end_above_int63_repaired :
   let c := 1750000000000 in
   info_is_intersecting (sealed_info c [c - 3600000]) (c - 3600000) u64max = true.
 Proof. vm_compute. reflexivity. Qed.
+
+(* ------------------------------------------------------------------ generated definitions (Gen.v)
+   Gen.v is regenerated from the Go sources on every run by harness/cmd/go2coq (spec: props/C14/gen.json,
+   trusted externs: GenPrelude.v). The theorems below tie the GENERATED definitions to the hand-written model
+   functions the theorems above are about: a change of one of these Go functions changes Gen.v and the
+   corresponding theorem stops compiling. *)
+From VLib Require Import GoSem.
+From C14 Require Import GenPrelude Gen ProofsGen.
+
+Theorem C14_gen_GetSize_refines : forall b, go_util_Bitmask_GetSize (zbm b) = bm_size b.
+Proof. exact gen_GetSize_refines. Qed.
+Print Assumptions C14_gen_GetSize_refines.
+
+(* util.Bitmask.Get as generated = bm_get (C14_hasbits_spec is stated with it) on every position inside the
+   byte array; no index or shift panic there *)
+Theorem C14_gen_Get_refines : forall b pos, 0 <= pos < 9223372036854775808 ->
+  pos / 8 < Z.of_nat (length (bm_bin b)) ->
+  go_util_Bitmask_Get (zbm b) pos = Val (bm_get b pos).
+Proof. exact gen_Get_refines. Qed.
+Print Assumptions C14_gen_Get_refines.
+
+(* MID.Time as generated (over the extern time.UnixMilli) = the int64 reinterpretation to_i64 *)
+Theorem C14_gen_MID_Time_refines : forall m, 0 <= m < two64 -> go_seq_MID_Time m = to_i64 m.
+Proof. exact gen_MID_Time_refines. Qed.
+Print Assumptions C14_gen_MID_Time_refines.
+
+Theorem C14_gen_isUndefined_refines : forall d, go_seq_MIDsDistribution_isUndefined (zdist d) = (d_bucket d =? 0).
+Proof. exact gen_isUndefined_refines. Qed.
+Print Assumptions C14_gen_isUndefined_refines.
+
+(* MIDsDistribution.size as generated = dist_size (C14_json_roundtrip, dist_wf) when the bucket count fits
+   int64; a zero bucket is an integer division by zero *)
+Theorem C14_gen_size_refines : forall d, d_bucket d <> 0 ->
+  - 9223372036854775808 <= Z.quot (sub_ns (d_to d) (d_from d)) (d_bucket d) ->
+  Z.quot (sub_ns (d_to d) (d_from d)) (d_bucket d) + 3 < 9223372036854775808 ->
+  go_seq_MIDsDistribution_size (zdist d) = Val (dist_size (d_from d) (d_to d) (d_bucket d)).
+Proof. exact gen_size_refines. Qed.
+Print Assumptions C14_gen_size_refines.
+
+Theorem C14_gen_size_zero_bucket : forall d, d_bucket d = 0 -> go_seq_MIDsDistribution_size (zdist d) = Panic.
+Proof. exact gen_size_zero_bucket. Qed.
+Print Assumptions C14_gen_size_zero_bucket.
+
+(* midToIndex as generated = mid_to_index (C14_index_monotone, C14_occupancy_sound, C14_intersect_sound are
+   about it) for EVERY uint64 MID, any window, any bucket above 1 ns, any bitmask size that fits int64 *)
+Theorem C14_gen_midToIndex_refines : forall d mid, 0 <= mid < two64 -> 1 < d_bucket d ->
+  - 9223372036854775808 < bm_size (d_mask d) <= 9223372036854775807 ->
+  go_seq_MIDsDistribution_midToIndex (zdist d) mid = Val (mid_to_index d mid).
+Proof. exact gen_midToIndex_refines. Qed.
+Print Assumptions C14_gen_midToIndex_refines.
+
+(* C14_index_monotone (range half) directly over the GENERATED midToIndex: no panic, index inside the bitmask *)
+Theorem C14_index_in_range_gen : forall d mid, dist_wf d -> 1 < d_bucket d -> 0 <= mid < two64 ->
+  bm_size (d_mask d) <= 9223372036854775807 ->
+  exists i, go_seq_MIDsDistribution_midToIndex (zdist d) mid = Val i /\ 0 <= i < bm_size (d_mask d).
+Proof. exact index_in_range_gen. Qed.
+Print Assumptions C14_index_in_range_gen.
+
+(* non-vacuity: a one-minute bucket window; the generated functions compute *)
+Example C14_gen_witness :
+  let d := mk_go_MIDsDistribution 1000000 1700000 60000000000 (mk_go_Bitmask 14 [6; 0]) in
+  go_seq_MIDsDistribution_size d = Val 14 /\
+  go_seq_MIDsDistribution_midToIndex d 1000000 = Val 1 /\
+  go_seq_MIDsDistribution_midToIndex d 999999 = Val 0 /\
+  go_seq_MIDsDistribution_midToIndex d 9223372036854775808 = Val 13 /\
+  go_util_Bitmask_Get (mk_go_Bitmask 14 [6; 0]) 2 = Val true /\
+  go_util_Bitmask_Get (mk_go_Bitmask 14 [6; 0]) 16 = Panic /\
+  go_seq_MIDsDistribution_IsIntersecting 4 d 1000000 1060000 = Val true.
+Proof. vm_compute. repeat split; reflexivity. Qed.
